@@ -299,6 +299,7 @@ def _run_child(binary, engine, infile, shard, nshards, after, only, timeout, env
 
 MAX_TIMEOUTS = 6      # confirmed-or-not hangs after which a shard stops exploring
 RETRY_TIMEOUTS = 4    # hangs retried in isolation (with 4x the time) before they count
+RETRY_CRASHES = 48    # child deaths re-run in isolation before they count
 
 
 def replay(engine, infile, nshards=None, timeout=30, env=None, rlimit_as=None, race=False, extra=None,
@@ -399,6 +400,49 @@ def replay(engine, infile, nshards=None, timeout=30, env=None, rlimit_as=None, r
     for t in rths:
         t.join()
     out.timeouts = sorted(confirmed)
+    # child deaths are re-run in isolation as well: a death that does not happen again (the machine ran out of
+    # threads or memory, a signal from outside) is not a verdict; only the first RETRY_CRASHES are re-run, and
+    # the rest is believed only when those were reproduced
+    crashed = list(out.crashes)
+    reproduced, passed_now = [], []
+
+    def recrash(item):
+        idx, text = item
+        res = []
+        rc, inflight, err = _run_child(binary, engine, infile, 0, 1, None, idx, timeout * 4, env, rlimit_as, extra,
+                                       lambda tag, i, payload: res.append((tag, i, payload)))
+        done = [r for r in res if r[0] in ("K", "F", "E", "T")]
+        if done:
+            with lock:
+                passed_now.append(idx)
+            for tag, i, payload in res:
+                if tag in ("K", "F", "E", "T"):
+                    with lock:
+                        out.total -= 1
+                cb(tag, i, payload)
+        else:
+            with lock:
+                reproduced.append((idx, (err[:1200] + "\n...\n" + err[-2800:]) if len(err) > 4000 else err))
+    sem = threading.Semaphore(min(8, NCPU))
+
+    def guarded(item):
+        with sem:
+            recrash(item)
+    cths = [threading.Thread(target=guarded, args=(it,)) for it in crashed[:RETRY_CRASHES]]
+    for t in cths:
+        t.start()
+    for t in cths:
+        t.join()
+    rest = crashed[RETRY_CRASHES:]
+    if crashed:
+        if rest and len(reproduced) * 10 < len(crashed[:RETRY_CRASHES]) * 9:
+            # most of the re-run deaths did not happen again: the others are not believed either
+            out.errors.append((-1, "%d child deaths were not re-run and %d of the %d re-run ones did not happen again" %
+                               (len(rest), len(passed_now), len(crashed[:RETRY_CRASHES]))))
+            rest = []
+        out.crashes = sorted(reproduced) + rest
+        if passed_now:
+            log("replay %s: %d child death(s) did not happen again in isolation (not counted)" % (engine, len(passed_now)))
     log("replay %s: %d scenarios, %d ok, %d failed, %d crashed, %d timed out, %.1fs" %
         (engine, out.total, out.passed, len(out.failures), len(out.crashes), len(out.timeouts), time.time() - t_start))
     if side_out:
